@@ -40,8 +40,9 @@ def gen_tree(rng, depth=0):
         return [gen_tree(rng, depth + 1) for _ in range(rng.randrange(0, 4))]
     d = {}
     for _ in range(rng.randrange(0, 5)):
-        k = rng.choice(["Action", "NotAction", "Action", "Statement", "Rules", "Metadata", "a", "b", "action"])
-        if k in ("Action", "NotAction"):
+        k = rng.choice(["Action", "NotAction", "Action", "Statement", "Rules", "Metadata", "a", "b", "action", "RuleAction", "DefaultAction",
+                        "NotificationAction", "Actions", "NotActions", "ActionType", "NOTACTION", "XNotAction", "Action "])
+        if k not in ("Statement", "Rules", "Metadata", "a", "b"):
             kind = rng.randrange(8)
             if kind == 0:
                 v = gen.gen_pattern(rng)
@@ -88,6 +89,7 @@ def run(report, tier, seed, driver, proofs_ok):
     n_templates = 600 if thorough else 40
 
     trees = [
+        {"RuleAction": "allow", "DefaultAction": "s3:Get*", "Actions": ["ec2:Run*"], "NotActions": "iam:*", "action": "sqs:*", "XNotAction": ["sns:*"]},
         {"Action": {"Block": {}}},  # D10
         {"Rules": [{"Action": {"Count": {}}, "Statement": {"Action": "s3:Get*"}}]},
         {"Action": ["s3:Get*", {"x": 1}]},
